@@ -190,8 +190,28 @@ def failed_write_cases(rng, count):
         out.append(case([("fa", data), ("other", None)], ["fa"], lines))     # (a buffer without a name cannot be written with a bare :w)
     return out
 
+def nameless_cases(rng, count):
+    """the buffer without a name (editor started without a file, or the last buffer deleted with `b !`): partial and
+    whole writes that name it, undo back to the start of its history, `#` and `%` standing for it, switching away
+    and back"""
+    out = []
+    for _ in range(count):
+        files = [("f0", rand_content(rng, 3) or "x\n"), ("f1", None), ("f2", "two\nlines\n")]
+        start_named = rng.below(3) == 0
+        lines = ["b !"] if start_named else []
+        if rng.below(3) == 0:
+            # a partial write names the buffer and marks it "differs from its file"; undo back to the start of the
+            # history must not make it look saved
+            lines += ["a", "l1", "l2", "."] + [rng.choice(["1w f1", "2w f1", "1,1w f1", "1w! f1"])] + ["u"] * rng.choice([1, 1, 2, 3]) + [rng.choice(["b", "q", "e f0", "b", "redo"])]
+        for _ in range(2 + rng.below(8)):
+            lines += rng.choice([["a", rng.choice(WORDS) or "t", "."], ["a", "l1", "l2", "."], ["1w f1"], ["w f1"], ["1,2w f1"], ["w! f1"], ["u"], ["u"], ["redo"], ["e f0"], ["e f2"], ["e #"], ["e! #"], ["e %"],
+                                 ["b"], ["b #"], ["b 1"], ["b !"], ["q"], ["1d"], ["s/o/0/"], ["w"], ["e! f0"], ["b -"]])
+        lines += ["b", "q", "b", "q!"]
+        out.append(case(files, ["f0"] if start_named else [], lines))
+    return out
+
 def buf_cases(rng, count, nfiles=3, maxcmds=14):
-    out = full_table_cases(rng, max(3, count // 150)) + epoch_cases(rng, max(4, count // 100)) + pipe_write_cases(rng, max(8, count // 60)) + failed_write_cases(rng, max(20, count // 25))
+    out = full_table_cases(rng, max(3, count // 150)) + epoch_cases(rng, max(4, count // 100)) + pipe_write_cases(rng, max(8, count // 60)) + failed_write_cases(rng, max(20, count // 25)) + nameless_cases(rng, max(30, count // 20))
     for _ in range(count):
         k = 2 + rng.below(nfiles - 1) if nfiles > 2 else 2
         names = ["f%d" % i for i in range(k)]
@@ -233,9 +253,9 @@ def fault_grid(rng):
                 out.append(case([("fa", fa), ("fb", "other\n" if rng.below(2) else None)], ["fa"], lines))
     return out
 
-SUB_PATS = ["a", "^a", "a$", "^", "$", "x*", "a*", "o", "(o)(o)", "(a)|(b)", "[ab]+", "é", "é*", ".", "\\<f", "o\\>", "^a*", "b*$", "(f)(o*)", "a|aa", "(a*)(b*)", "日", "  *", "\\.", "\\/", "a\\\n", "\\\n", "o*\\\n", "^\\\n", "\\<", "\\>", "\\<o*"]
+SUB_PATS = ["a", "^a", "a$", "^", "$", "x*", "a*", "o", "(o)(o)", "(a)|(b)", "[ab]+", "é", "é*", ".", "\\<f", "o\\>", "^a*", "b*$", "(f)(o*)", "a|aa", "(a*)(b*)", "日", "  *", "\\.", "\\/", "a\\\n", "\\\n", "o*\\\n", "^\\\n", "\\<", "\\>", "\\<o*", "aé*", "éa+", "ééa?", "日本*", "oo{2}", "é{2}"]
 SUB_REPS = ["X", "", "-", "[\\0]", "\\1", "\\2\\1", "<\\1|\\2>", "\\\\", "é", "\\n", "&", "\\9", "x\\0y\\0", "\\\n", "x\\\ny", "\\\n\\\n", "\\0\\\n"]
-SUB_LINES = ["aaa", "ééa", "foo bar", "abab", "", "a", "baac", "日本語", "  x  y", "a.b/c", "foo", "aXa", "oo", "fooo foo"]
+SUB_LINES = ["aaa", "ééa", "foo bar", "abab", "", "a", "baac", "日本語", "  x  y", "a.b/c", "foo", "aXa", "oo", "fooo foo", "aééé b", "éaaa", "日本本本"]
 
 def c14_cases(rng, count):
     out = []
